@@ -131,7 +131,7 @@ PROPS = {
     'C19': {
         'level': 'other',
         'extra': [('pyvc-own(copy-before-write)', extras.cow_check), ('module threading', extras.module_threading_check),
-                  ('memo-key', extras.memo_key_check)],
+                  ('memo-key', extras.memo_key_check), ('pre_process idempotence', extras.preprocess_idempotence_check)],
         'needs_contracts': False,
         'assumptions': ['DEFAULT conversion through type references (parser.convert_value), the transitive copy through '
                         'ExplicitTag.inner, permutation of assignments/modules/files and the duplicate-name rule of '
@@ -144,7 +144,8 @@ PROPS = {
     'C13': {
         'level': 'other',
         'extra': [('module threading', extras.module_threading_check), ('pyvc-own(copy-before-write)', extras.cow_check),
-                  ('pre_process coverage', extras.preprocess_coverage_check), ('memo-key', extras.memo_key_check)],
+                  ('pre_process coverage', extras.preprocess_coverage_check), ('memo-key', extras.memo_key_check),
+                  ('pre_process idempotence', extras.preprocess_idempotence_check)],
         'needs_contracts': False,
         'assumptions': ['idempotence / option-independence of the in-place pre-processing passes (automatic tagging, implied '
                         'extension marker, COMPONENTS OF, default conversion) is NOT under contract; known defect 12 (ENUMERATED '
